@@ -115,6 +115,7 @@ func genText(r *hx.Rand) string {
 
 type GenCfg struct {
 	Adversarial bool // loops, self-enters, default-to-self routers (C05)
+	Long        bool // C02: more waits and fewer dead ends, so that histories cross several waits
 	SmallLimits bool // small option values
 }
 
@@ -124,6 +125,9 @@ func genAssets(r *hx.Rand, cfg GenCfg) *Assets {
 	sizes := make([]int, nflows)
 	for i := range sizes {
 		sizes[i] = r.Range(0, 6)
+		if cfg.Long && sizes[i] < 3 && r.Chance(2, 3) {
+			sizes[i] = r.Range(3, 6)
+		}
 		if i == 0 && r.Chance(9, 10) && sizes[i] == 0 {
 			sizes[i] = r.Range(1, 5)
 		}
@@ -173,7 +177,7 @@ func pickDest(r *hx.Rand, cfg GenCfg, f *Flow, self *Node) int {
 		return 0
 	}
 	p := 3
-	if cfg.Adversarial {
+	if cfg.Adversarial || cfg.Long {
 		p = 6
 	}
 	if r.Chance(1, p) {
@@ -236,7 +240,7 @@ func genNode(r *hx.Rand, cfg GenCfg, a *Assets, f *Flow, n *Node) {
 			rt.Cats = append(rt.Cats, Category{Name: fmt.Sprintf("C%d", k), Exit: ex})
 		}
 		// an optional msg wait (not in background flows), optionally with a timeout on its own category
-		if f.Type == 0 && r.Chance(2, 3) {
+		if f.Type == 0 && (r.Chance(2, 3) || (cfg.Long && r.Chance(1, 2))) {
 			w := &Wait{}
 			if r.Chance(1, 2) {
 				w.HasTimeout = true
